@@ -90,11 +90,8 @@ func (self *Lexer) skipBlockComment() {
 	self.advance()
 	self.advance()
 
-	for {
-		if self.currentChar == nil || self.nextChar == nil {
-			break
-		}
-		if *self.currentChar == '*' && *self.nextChar == '/' {
+	for self.currentChar != nil {
+		if *self.currentChar == '*' && self.nextChar != nil && *self.nextChar == '/' {
 			self.advance()
 			self.advance()
 			break
